@@ -84,6 +84,8 @@ def observe(mage, case):
     ob["run"] = None
     ob["default_run"] = None
     ob["fail_run"] = None
+    ob["single_runs"] = []
+    ob["compiled"] = None
     if not ob["listing"]:
         return ob
     listed = [n.rstrip("*") for n, _ in ob["listing"][1]]
@@ -103,6 +105,27 @@ def observe(mage, case):
     if words:
         rr = mage.run(d, words, env=HASHFAST)
         ob["run"] = {"words": words, "plan": plan, "rc": rr["rc"], "calls": calls(rr["out"]), "err": rr["err"][-600:]}
+    # every listed name as the FIRST word of a command line of its own (the front end looks at that word)
+    singles = [(bylow[G.go_lower(key)], ws, expect, did) for key, ws, expect, did in case["runs"] if G.go_lower(key) in bylow]
+    for n, ws, expect, did in singles:
+        rr = mage.run(d, [n] + ws, env=HASHFAST)
+        ob["single_runs"].append({"route": "mage", "words": [n] + ws, "want": [did, [list(x) for x in expect]], "rc": rr["rc"],
+                                  "calls": [[c0, [list(x) for x in a]] for c0, a in calls(rr["out"])], "out": rr["out"][:200], "err": rr["err"][-200:]})
+    if case.get("compile"):
+        # the same through a -compile'd binary: listing, help and one run per name
+        exe = os.path.join(d, "compiled_magefile_bin")
+        cr = mage.compile(d, exe)
+        comp = {"rc": cr["rc"], "err": cr["err"][-400:], "listing": None, "helps": {}}
+        if cr["rc"] == 0:
+            lr = mage.run(d, ["-l"], exe=exe)
+            comp["listing"] = parse_listing(lr["out"]) if lr["rc"] == 0 else None
+            for n, ws, expect, did in singles:
+                hr = mage.run(d, ["-h", n], exe=exe)
+                comp["helps"][n] = {"rc": hr["rc"], "parsed": parse_help(hr["out"]) if hr["rc"] == 0 else None, "out": hr["out"][:200]}
+                rr = mage.run(d, [n] + ws, exe=exe)
+                ob["single_runs"].append({"route": "compiled", "words": [n] + ws, "want": [did, [list(x) for x in expect]], "rc": rr["rc"],
+                                          "calls": [[c0, [list(x) for x in a]] for c0, a in calls(rr["out"])], "out": rr["out"][:200], "err": rr["err"][-200:]})
+        ob["compiled"] = comp
     if case["fail_run"]:
         key, ws, did = case["fail_run"]
         n = bylow.get(G.go_lower(key))
@@ -177,6 +200,22 @@ def judge(ctx, case, ob):
         got_calls = [(did, [list(x) for x in args]) for did, args in r["calls"]]
         if r["rc"] != 0 or want_calls != got_calls:
             v("runnable", words=r["words"], rc=r["rc"], expected_calls=want_calls, calls=got_calls, stderr=r["err"][-300:])
+    for sr in ob["single_runs"]:
+        if sr["rc"] != 0 or sr["calls"] != [sr["want"]]:
+            v("runnable-as-first-word", route=sr["route"], words=sr["words"], rc=sr["rc"], expected_call=sr["want"], calls=sr["calls"],
+              stdout=sr["out"], stderr=sr["err"])
+    comp = ob["compiled"]
+    if comp is not None:
+        if comp["rc"] != 0 or comp["listing"] is None:
+            v("generated-program-does-not-compile", route="compiled", detail="mage -compile fails although the package compiles", stderr=comp["err"])
+        else:
+            if sorted(n for n, _ in comp["listing"][1]) != sorted(n for n, _ in entries):
+                v("exact-set", route="compiled", listed_by_binary=[n for n, _ in comp["listing"][1]], listed_by_mage=[n for n, _ in entries])
+            for n, h in comp["helps"].items():
+                mp = ob["helps"].get(n, {}).get("parsed")
+                p = h["parsed"]
+                if not p or (mp and (p["comment"], p["args"], sorted(p["aliases"])) != (mp["comment"], mp["args"], sorted(mp["aliases"]))):
+                    v("help-fails", route="compiled", target=n, rc=h["rc"], out=h["out"])
     fr = ob["fail_run"]
     if fr is not None and (fr["rc"] != 1 or fr["calls"] != [case["fail_run"][2]] or "FAIL-" + case["fail_run"][2] not in fr["err"]):
         v("error-result-returned", words=fr["words"], rc=fr["rc"], calls=fr["calls"], stderr=fr["err"],
@@ -257,7 +296,7 @@ def run(ctx):
     cases = []
     if ctx.replay and ctx.replay.get("case"):
         c = ctx.replay["case"]
-        cases.append({"stream": c["stream"], "pkg": c["pkg"], "ident": c.get("ident")})
+        cases.append({"stream": c["stream"], "pkg": c["pkg"], "ident": c.get("ident"), "compile": True})
     else:
         nmain = 32 if ctx.quick else 900
         k = 1 if ctx.quick else 12
@@ -269,6 +308,11 @@ def run(ctx):
             cases.append({"stream": "magefiles-dir", "pkg": G.gen_package(rng)})
         for j in range(6 * k):
             cases.append({"stream": "unicode", "pkg": G.gen_unicode(rng, safe=(j % 2 == 0))})
+        for j in range(6 * k):
+            cases.append({"stream": "cli-words", "compile": True,
+                          "pkg": G.gen_cli_words(rng, force=["Help", "Version", "Init", "L", "H", "Main"][j % 6])})
+        for c in cases[:6]:
+            c["compile"] = True
         for cls, n in (("import-name-clash", 4), ("generic-namespace-type", 1), ("lookalike", 6)):
             for _ in range(n * k):
                 cases.append({"stream": cls, "pkg": G.gen_clash(rng, cls)})
@@ -332,6 +376,8 @@ def run(ctx):
         stats["help_texts"] += len(ob["helps"])
         stats["target_runs"] += len(ob["run"]["plan"]) if ob["run"] else 0
         stats["default_runs"] += 1 if ob["default_run"] else 0
+        stats["first_word_runs"] = stats.get("first_word_runs", 0) + len(ob["single_runs"])
+        stats["compiled_binaries"] = stats.get("compiled_binaries", 0) + (1 if ob["compiled"] else 0)
         stats["failing_runs"] = stats.get("failing_runs", 0) + (1 if ob["fail_run"] else 0)
         if dv.get("err"):
             raise BuildError("docview: %s on %s" % (dv["err"], c["dir"]))
